@@ -57,7 +57,8 @@ def ConfigurationFileToJson(filename):
 
     '''Reads dosini format configuration file and returns it as json string'''
 
-    cfg = configparser.ConfigParser()
+    # VV: the values are data (e.g. paths to key-outputs), a '%' in them is not an interpolation directive
+    cfg = configparser.ConfigParser(interpolation=None)
     cfg.read([filename])
     return ConfigurationToJson(cfg)
 
